@@ -2,7 +2,6 @@ package hpacket
 
 import (
 	packettypes "github.com/bianjieai/tibc-go/modules/tibc/core/04-packet/types"
-	host "github.com/bianjieai/tibc-go/modules/tibc/core/24-host"
 	"github.com/bianjieai/tibc-go/zzverif/vp"
 )
 
@@ -27,7 +26,7 @@ func cleanState(k keeperT, ctx ctxT, src, dst string, onSource bool) (cp, maxAck
 	maxAck = vp.Uint64("pre.maxAck")
 	vp.Assume(maxAck < 99)
 	vp.SetIf(maxAck > 0, func() { k.SetMaxAckSequence(ctx, src, dst, maxAck) })
-	val := packettypes.CommitAcknowledgement([]byte{1})
+	val := refCommit([]byte{1})
 	for i := uint64(0); i <= window; i++ {
 		s := slot{seq: cp + i}
 		if i > 0 {
@@ -46,11 +45,11 @@ func cleanState(k keeperT, ctx ctxT, src, dst string, onSource bool) (cp, maxAck
 
 func checkCleanPost(k keeperT, ctx ctxT, src, dst string, cp, n uint64, slots []slot, mark int, tag string) {
 	vp.Assert(clientBE(k.GetCleanPacketCommitment(ctx, src, dst)) == n, tag+" the clean point becomes exactly N")
-	allowed := [][]byte{host.CleanPacketCommitmentKey(src, dst)}
+	allowed := [][]byte{refCleanKey(src, dst)}
 	removedOK, keptOK, commitsOK := true, true, true
 	for _, s := range slots {
 		inRange := vp.And(s.seq > cp, s.seq <= n)
-		rk, ak, ck := host.PacketReceiptKey(src, dst, s.seq), host.PacketAcknowledgementKey(src, dst, s.seq), host.PacketCommitmentKey(src, dst, s.seq)
+		rk, ak, ck := refReceiptKey(src, dst, s.seq), refAckKey(src, dst, s.seq), refCommitmentKey(src, dst, s.seq)
 		hasR, hasA, hasC := vp.HasKey(ctx, "tibc", rk), vp.HasKey(ctx, "tibc", ak), vp.HasKey(ctx, "tibc", ck)
 		removedOK = vp.And(removedOK, vp.Implies(inRange, vp.And(!hasR, !hasA)))
 		keptOK = vp.And(keptOK, vp.Implies(!inRange, vp.And(hasR == s.receipt, hasA == s.ack)))
@@ -65,10 +64,10 @@ func checkCleanPost(k keeperT, ctx ctxT, src, dst string, cp, n uint64, slots []
 	inside := true
 	for i := mark; i < nw; i++ {
 		key := vp.WrittenKey(ctx, "tibc", i)
-		hit := vp.BytesEq(key, host.CleanPacketCommitmentKey(src, dst))
+		hit := vp.BytesEq(key, refCleanKey(src, dst))
 		for _, s := range slots {
 			inRange := vp.And(s.seq > cp, s.seq <= n)
-			hit = vp.Or(hit, vp.And(inRange, vp.Or(vp.BytesEq(key, host.PacketReceiptKey(src, dst, s.seq)), vp.BytesEq(key, host.PacketAcknowledgementKey(src, dst, s.seq)))))
+			hit = vp.Or(hit, vp.And(inRange, vp.Or(vp.BytesEq(key, refReceiptKey(src, dst, s.seq)), vp.BytesEq(key, refAckKey(src, dst, s.seq)))))
 		}
 		inside = vp.And(inside, hit)
 	}
